@@ -441,7 +441,10 @@ CHAINS = {
 }
 AVAILABLE_VMS = [
     {"vm1": "only CentOS\n", "vm2": "only Win10\n", "vm3": "only Ubuntu\n"},
+    {"vm1": "only CentOS\n", "vm2": "only Win10\n", "vm3": "only Ubuntu\n"},
     {"vm1": "only Fedora\n", "vm2": "only Win7\n", "vm3": "only Kali\n"},
+    {"vm1": "", "vm2": "only Win10\n", "vm3": "only Ubuntu\n"},
+    {"vm1": "only CentOS\n", "vm2": "", "vm3": "only Ubuntu\n"},
 ]
 
 
